@@ -1,8 +1,8 @@
 SPECIFICATION Spec
 CONSTANTS
-  Part = "shapes"
+  Part = "bool"
   BoolSize = "q"
   AndMerge = "fixed"
   MaxArms = 1
-INVARIANT StrinStrict
+INVARIANT BoolStrict
 CHECK_DEADLOCK FALSE
